@@ -261,6 +261,20 @@ func (c *Cluster) StartJob() error {
 	return nil
 }
 
+// ContinueNamesOf makes this cluster number its workers after those of prev. Operator ids name the
+// operators' directories in the shared working storage; real ids are random (ksuid) and never repeat, so two
+// clusters of one case must not hand out the same names.
+func (c *Cluster) ContinueNamesOf(prev *Cluster) {
+	prev.mu.Lock()
+	n := prev.nextW
+	prev.mu.Unlock()
+	c.mu.Lock()
+	if n > c.nextW {
+		c.nextW = n
+	}
+	c.mu.Unlock()
+}
+
 func (c *Cluster) job() *jobs.Job {
 	c.mu.Lock()
 	defer c.mu.Unlock()
